@@ -548,3 +548,38 @@ def add_onehot_terminals(spec, g):
                              {'lhs': lhs, 'nodes': nodes, 'ext': list(range(len(st))),
                               'edges': [{'label': names[0], 'att': [k], 'id': None}, {'label': names[1], 'att': [k], 'id': None}]})
     return spec
+
+
+def perm_unit_spec(g, menu='small'):
+    """a linearly recursive SCC of binary nonterminals with UNIT rules whose only edge permutes or repeats the externals
+    (X(v,w) -> Y(w,v), X(v,w) -> Y(v,v) ...), next to ordinary linear rules and base rules with asymmetric weights"""
+    sz = g.choice([2, 2, 3])
+    names = g.sample(['X', 'Y', 'P', 'Q'], g.randrange(2, 4))
+    domains = {'A': {'kind': 'range', 'size': sz}}
+    nts = {n: {'type': ['A', 'A']} for n in names}
+    terms = {}
+    rules = []
+    ti = 0
+    two = lambda: [{'label': 'A', 'id': None}, {'label': 'A', 'id': None}]
+    for i, n in enumerate(names):
+        nxt = names[(i + 1) % len(names)]
+        kind = g.choice(['swap', 'swap', 'repeat', 'straight'])
+        att = {'swap': [1, 0], 'repeat': g.choice([[0, 0], [1, 1]]), 'straight': [0, 1]}[kind]
+        if i == 0 or (g.random() < 0.3 and i < len(names) - 1):
+            # pure unit rule: the nonterminal edge alone (the other members of the cycle carry weights < 1, so it converges)
+            rules.append({'lhs': n, 'nodes': two(), 'ext': [0, 1], 'edges': [{'label': nxt, 'att': att, 'id': None}]})
+        else:
+            name = 't%d' % ti
+            ti += 1
+            terms[name] = {'type': ['A', 'A'], 'weights': gen_weights(g, [sz, sz], menu)}
+            rules.append({'lhs': n, 'nodes': two() + [{'label': 'A', 'id': None}], 'ext': [0, 1],
+                          'edges': [{'label': name, 'att': [0, 2], 'id': None}, {'label': nxt, 'att': [2, 1] if kind != 'swap' else [1, 2], 'id': None}]})
+        if g.random() < 0.75 or i == 0:
+            name = 'b%d' % ti
+            ti += 1
+            terms[name] = {'type': ['A', 'A'], 'weights': gen_weights(g, [sz, sz], 'pos')}
+            rules.append({'lhs': n, 'nodes': two(), 'ext': [0, 1], 'edges': [{'label': name, 'att': [0, 1], 'id': None}]})
+    nts['S'] = {'type': []}
+    rules.append({'lhs': 'S', 'nodes': two(), 'ext': [], 'edges': [{'label': names[0], 'att': g.choice([[0, 1], [1, 0]]), 'id': None}]})
+    g.shuffle(rules)
+    return {'domains': domains, 'terms': terms, 'nts': nts, 'start': g.choice(['S', names[0]]), 'rules': rules}
